@@ -111,7 +111,7 @@ theorem parseDeclarations_typedef (env : Env) (F D : Nat) (tok : CTok) (doxygen 
         have ho : o.type = "*" := by simpa [opsHeadOk] using hops
         exact ⟨o, _, hto, by rw [ho]; decide, by rw [ho]; decide, by rw [ho]; decide, hopsv o (by simp)⟩
   obtain ⟨w1, t1, hi1, hs1, ht1, hty1, hv1⟩ := parseType_plain env F D true tok pairs w b0 bnx nx hty hpv hnc hall hy0 hnx
-    hnxstop hnxlt hnxdc (by omega)
+    (typeStop_end hnxstop) hnxlt hnxdc (by omega)
   have hsl2 : SameButLog w w1 := hs1
   have htop2 := interp_getTop env w1 blk rest (by rw [hsl2.stack]; exact hstack)
   -- the stream seen by the declarator loop: the pushed-back copy of `nx`, then as given
